@@ -281,7 +281,7 @@ AMGenSeq(g) == [i \in 1..g.n |-> AMGenAt(g, i)]
 AMGenHas(g, v) == v >= g.o /\ (v - g.o) % g.st = 0 /\ (v - g.o) \div g.st < g.w
 AMGcd1(a, b) == VGcd(a, b) = 1
 AMGenOK(g) == /\ g.n >= 1 /\ g.w >= 1 /\ g.m >= 1 /\ g.s >= 0 /\ g.st >= 1 /\ AMGcd1(g.m, g.w)
-              /\ g.n <= 1100000 /\ g.m <= 1000 /\ g.w <= 1100000 /\ g.s <= 1100000      \* 32-bit arithmetic
+              /\ g.n <= 4200000 /\ g.m <= 500 /\ g.w <= 1100000 /\ g.s <= 1100000       \* 32-bit arithmetic
 
 \* (L1) the clauses of AMMatchFailing for a first array WITHOUT repeats given by its element
 \* function A1 (1..n1) and membership test Has1, a second array A2 (1..n2)
